@@ -149,8 +149,22 @@ class Check(PropertyCheck):
                     pts = narrow
                 else:
                     fdt = None
-            cases.append(G.add_history(rng, {'kind': d['kind'], 'region': d, 'qshape': qs, 'int': integer, 'idtype': idt, 'fdtype': fdt,
-                                             'pts': [[x, y] for (x, y) in pts]}))
+            case = G.add_history(rng, {'kind': d['kind'], 'region': d, 'qshape': qs, 'int': integer, 'idtype': idt, 'fdtype': fdt,
+                                       'pts': [[x, y] for (x, y) in pts]})
+            if d['kind'] == 'regular_polygon' and rng.random() < 0.4:
+                # the object was a regular polygon with ANOTHER vertex count (only `nvertices` is re-assigned), or another
+                # radius / angle: every derived quantity has to follow
+                k_ = rng.choice(['n', 'n', 'r', 'angle'])
+                prev = dict(d)
+                if k_ == 'n':
+                    prev['n'] = rng.choice([v for v in range(3, 10) if v != d['n']])
+                elif k_ == 'r':
+                    prev['r'] = d['r'] * rng.choice([0.5, 2.0])
+                else:
+                    prev['angle'] = [d['angle'][0] + 1.0, d['angle'][1]]
+                case['prev'] = prev
+                case['only_changed'] = True
+            cases.append(case)
         return cases
 
     @staticmethod
